@@ -56,7 +56,7 @@
 //!     clear after emitting everything) but violate the property as stated and the trait's rustdoc;
 //!     repair /verif/fixes/C13-reset-on-clear-and-emit-all.diff.
 //!
-//! Sensitivity probes (mkpatch + mutrun, `./check C13 quick`):
+//! Sensitivity probes (patches kept in harness/crates/vf-plow/probes/; mkpatch + mutrun, `./check C13 quick`):
 //!  1. single_group_by/boolean.rs: `true_group` index not shifted down after `emit(First(n))`  -> VIOLATION (1 089 cases)
 //!  2. null_builder.rs `take_n`: remaining validity bits copied from `i - n` instead of `i`       -> VIOLATION (8 cases)
 //!  3. multi_group_by/bytes.rs `take_n`: remaining offsets not rebased — the mutant feeds inconsistent
